@@ -79,6 +79,7 @@ type cbItem struct {
 	Flags cbFlags     `  | "flags" @Ident+`
 	Addr  *cbAddr     `  | "addr" @String`
 	Opt   *cbDuration `  | "opt" @@? "!"`
+	Tpl   *cbTemplate `  | "tpl" @String`
 	Seq   *cbSeq      `  | "seq" @@`
 	Words []string    `  | "seq" @Ident+ "?" ) ";"`
 }
@@ -220,6 +221,38 @@ func (f *cbFlags) Capture(values []string) error {
 	return nil
 }
 
+// cbTemplate is a Capture that re-enters participle: the captured string is itself parsed, with a
+// parser of its own and with tracing on (the usual way interpolated strings are handled).
+type cbTemplate struct{ Parts []string }
+
+type cbTpl struct {
+	Segs []*cbTplSeg `@@*`
+}
+
+type cbTplSeg struct {
+	Name string `  "{" @Ident "}"`
+	Text string `| @( Ident | Int )`
+}
+
+var cbTplParser = participle.MustBuild[cbTpl]()
+
+func (t *cbTemplate) Capture(values []string) error {
+	switch cbOutcome(false) {
+	case cbForeign:
+		return errForeign
+	}
+	for _, v := range values {
+		inner, err := cbTplParser.ParseString("tpl", v, participle.Trace(discardSink{}))
+		if err != nil {
+			return fmt.Errorf("template %q: %v", v, err)
+		}
+		for _, sg := range inner.Segs {
+			t.Parts = append(t.Parts, sg.Text+"|"+sg.Name)
+		}
+	}
+	return nil
+}
+
 // TextUnmarshaler
 type cbAddr struct {
 	Host string
@@ -295,6 +328,8 @@ var worldCallbacks = &world{
 		{name: "forbidden", valid: false, text: "flags ok forbidden;"},
 		{name: "bad-shape", valid: false, text: "shape rect 1 x;"},
 		{name: "seqs", valid: true, text: "seq a b ?; seq c .; seq d e f ?; seq .; seq g h .;"},
+		{name: "templates", valid: true, text: "tpl \"hi {name} and {other} 2\"; dur 1; tpl \"\"; tpl \"{x}\";"},
+		{name: "bad-template", valid: false, text: "tpl \"hi {name\";"},
 		{name: "plain-user-error", valid: false, foreignErr: true, text: "dur 1; shape hexagon 6; dur 2;"},
 	},
 }
